@@ -247,11 +247,20 @@ def bounded(ctx, b):
     rng = random.Random(ctx.seed)
     spans_alphabet = [(0, 10), (0, 20), (10, 20), (5, 5)]
     maxlen = 5 if not ctx.thorough else 6
+    BRK_ = (CaptionNode.BREAK, None)
+
+    def shape(i):
+        """node shapes differ from caption to caption: text / break / text, a single text, ending with a
+        break, starting with a break"""
+        a, b_ = (CaptionNode.TEXT, f"a{i}"), (CaptionNode.TEXT, f"b{i}")
+        return [[a, BRK_, b_], [a], [a, BRK_], [BRK_, a]][i % 4]
+
+    def build(desc):
+        return [CaptionNode.create_break() if k == CaptionNode.BREAK else T(v) for k, v in desc]
     for n in range(0, maxlen + 1):
         for spans in itertools.product(spans_alphabet, repeat=n):
             def mk():
-                return CaptionSet({"en": CaptionList([Caption(s, e, [T(f"a{i}"), CaptionNode.create_break(), T(f"b{i}")])
-                                                      for i, (s, e) in enumerate(spans)]),
+                return CaptionSet({"en": CaptionList([Caption(s, e, build(shape(i))) for i, (s, e) in enumerate(spans)]),
                                    "fr": CaptionList([Caption(1, 2, [T("x")])])})
 
             def one():
@@ -264,7 +273,7 @@ def bounded(ctx, b):
                     for k, i in enumerate(idx):
                         if k:
                             nodes.append((CaptionNode.BREAK, None))
-                        nodes += [(CaptionNode.TEXT, f"a{i}"), (CaptionNode.BREAK, None), (CaptionNode.TEXT, f"b{i}")]
+                        nodes += shape(i)
                     exp.append((sp[0], sp[1], nodes))
                 if got != exp or dump(res)["fr"] != [(1, 2, [(CaptionNode.TEXT, "x")])]:
                     return False, {"spans": spans, "got": got, "expected": exp}
